@@ -1,6 +1,7 @@
 import NomtModel.Store.WalkerSimSafe
 import NomtModel.Store.WalkerSimVisit
 import NomtModel.Store.WalkerGSimVisit
+import NomtModel.Store.WalkerTreeAll
 /-!
 # Every visitor call of a canonical block is made in a state where the mirror cannot fail
 -/
@@ -12,54 +13,93 @@ variable {Node VH : Type} [DecidableEq Node] [DecidableEq VH] (H : Hasher Node V
 
 /-- the mirror folds the visitor over a safe list without failing, simulating the tree walker -/
 theorem sim_visitAll (ps : PageSet Node) (hs : H.Sound) (hfresh : ∀ P, (ps.fresh P).length = 126) (sd : Nat)
-    (Lfin : List (PageId × Store Node)) :
+    (Lfin : List (PageId × Store Node)) (hnd : (Lfin.map (·.1)).Nodup) :
     ∀ (evs : List (WriteNode Node VH)) (w : Walker Node) (a : TW Node), Sim H ps w a →
       SafeAll H (cfgOf H ps w.parentPage) (6 * k0 w.parentPage) w.parentPage.isNone sd a evs →
-      (w.reconstruction = true → SmallBy H ps Lfin ∧
+      AllQ H (cfgOf H ps w.parentPage) (VisitFresh ps) sd a evs →
+      ((w.reconstruction = true → SmallBy H ps Lfin) ∧
         (TW.visitAll H (cfgOf H ps w.parentPage) sd a evs).log <+: Lfin) →
-      (∃ w', w.visitAll H ps sd evs = .ok w' ∧
+      ∃ w', w.visitAll H ps sd evs = .ok w' ∧
         Sim H ps w' (TW.visitAll H (cfgOf H ps w.parentPage) sd a evs) ∧ Same w w' ∧
-        w'.childPageRoots = w.childPageRoots) ∨
-      (w.reconstruction = false ∧ w.visitAll H ps sd evs = .panic GUARD) := by
+        w'.childPageRoots = w.childPageRoots := by
   intro evs
   induction evs with
-  | nil => intro w a h _ _; exact Or.inl ⟨w, rfl, h, Same.rfl' _, rfl⟩
+  | nil => intro w a h _ _ _; exact ⟨w, rfl, h, Same.rfl' _, rfl⟩
   | cons c cs ih =>
-    intro w a h hsafe hfin
+    intro w a h hsafe hallq hfin
     obtain ⟨hc, hrest⟩ := hsafe
-    rcases sim_visit H ps hs hfresh sd h c hc Lfin (by
-      intro hr
-      obtain ⟨hsb, hpre⟩ := hfin hr
-      refine ⟨hsb, ?_⟩
+    obtain ⟨hq, hqrest⟩ := hallq
+    obtain ⟨w1, hw1, hs1, hsame1, hcpr1⟩ := sim_visit H ps hs hfresh sd h c hc hq Lfin hnd (by
+      refine ⟨hfin.1, ?_⟩
+      have hpre := hfin.2
       simp only [TW.visitAll] at hpre
-      exact List.IsPrefix.trans (tw_visitAll_log_prefix H _ sd cs _) hpre) with ⟨w1, hw1, hs1, hsame1, hcpr1⟩ | ⟨hnr, hp⟩
-    case inr =>
-      right
-      refine ⟨hnr, ?_⟩
-      simp only [Walker.visitAll]
-      rw [hp]
+      exact List.IsPrefix.trans (tw_visitAll_log_prefix H _ sd cs _) hpre)
     have hpar : w1.parentPage = w.parentPage := hsame1.1
-    rcases ih w1 _ hs1 (by rw [hpar]; exact hrest) (by
-      intro hr
-      have hr0 : w.reconstruction = true := by rw [← hsame1.2.2.2.2]; exact hr
-      obtain ⟨hsb, hpre⟩ := hfin hr0
-      refine ⟨hsb, ?_⟩
-      rw [hpar]
-      simp only [TW.visitAll] at hpre
-      exact hpre) with ⟨w2, hw2, hs2, hsame2, hcpr2⟩ | ⟨hnr2, hp2⟩
-    · simp only [Walker.visitAll, TW.visitAll]
-      rw [hw1]
-      simp only
-      rw [hpar] at hs2
-      exact Or.inl ⟨w2, hw2, hs2, Same.trans' hsame1 hsame2, hcpr2.trans hcpr1⟩
-    · right
-      refine ⟨by rw [← hsame1.2.2.2.2]; exact hnr2, ?_⟩
-      simp only [Walker.visitAll]
-      rw [hw1]
-      exact hp2
+    obtain ⟨w2, hw2, hs2, hsame2, hcpr2⟩ := ih w1 _ hs1 (by rw [hpar]; exact hrest) (by rw [hpar]; exact hqrest) (by
+      refine ⟨?_, ?_⟩
+      · intro hr
+        have hr0 : w.reconstruction = true := by rw [← hsame1.2.2.2.2]; exact hr
+        exact hfin.1 hr0
+      · have hpre := hfin.2
+        rw [hpar]
+        simp only [TW.visitAll] at hpre
+        exact hpre)
+    simp only [Walker.visitAll, TW.visitAll]
+    rw [hw1]
+    simp only
+    rw [hpar] at hs2
+    exact ⟨w2, hw2, hs2, Same.trans' hsame1 hsame2, hcpr2.trans hcpr1⟩
 
-/-! ## the shape of the `Leaf` calls -/
+/-! ## nothing of the page set hangs below the pages a block creates -/
 
-/-! ## every call of a block is safe -/
+/-- below a position under which the page set holds no weight, every descent is into fresh territory -/
+theorem freshBelow_of_clean (ps : PageSet Node) (t : Path)
+    (hclean : ∀ q, t <+: q → q.length % 6 = 0 → q.length < 256 → fullSum ps (sextetsOf q) = 0)
+    (p : Path) (bits : List Bool) (htp : t <+: p) (hlen : p.length + bits.length ≤ 256) : FreshBelow ps p bits := by
+  intro j hj h6
+  have hx : bits.take (j + 1) = bits.take j ++ [bits[j]] := by
+    rw [List.take_add_one, List.getElem?_eq_getElem hj]; rfl
+  rw [hx, ← List.append_assoc, specPage_snoc_boundary _ _ h6]
+  apply hclean _ (List.IsPrefix.trans htp (List.prefix_append _ _)) h6
+  simp only [List.length_append, List.length_take]
+  omega
+
+theorem tw_visit_tree_fresh (ps : PageSet Node) (hs : H.Sound) {O : List (Key × VH)} (hk : KeysOK O) (cfg : TWCfg Node)
+    (t : Path) (hclean : ∀ q, t <+: q → q.length % 6 = 0 → q.length < 256 → fullSum ps (sextetsOf q) = 0) :
+    ∀ (f : Nat) (P : Path) (prev : Option Key) (J : Path) (a : TW Node),
+      256 - P.length = f → t <+: P → P.length ≤ 256 → sub O P ≠ [] → J <+: P →
+      PreJ t.length t prev (sub O P) J a.pos →
+      AllQ H cfg (VisitFresh ps) t.length a
+        (treeEv H t.length (256 - P.length) (P.length - t.length) (sub O P) prev) := by
+  apply tw_visit_tree_all H hs hk cfg t (VisitFresh ps)
+  · intro P prev J a k v htP hP hB hJ hpre
+    have hkP : P <+: k := by
+      have : (k, v) ∈ sub O P := by rw [hB]; simp
+      exact ((mem_sub hk P hP (k, v)).mp this).2
+    cases prev with
+    | none =>
+      obtain ⟨hpos, _⟩ := hpre
+      rw [leafEv_first_eq H t P k v htP hkP]
+      show FreshBelow ps a.pos (P.drop t.length)
+      rw [hpos]
+      apply freshBelow_of_clean ps t hclean t _ (List.prefix_refl _)
+      rw [List.length_drop]
+      have := htP.length_le
+      omega
+    | some pk =>
+      obtain ⟨x, hpos, hJx, hxl, hsh⟩ := hpre
+      have hxP : (x ++ [true]) <+: P := by rw [← hJx]; exact hJ
+      rw [leafEv_jump_eq H t P k v pk x htP hkP hxP hxl (hsh (k, v) (by simp))]
+      show FreshBelow ps (sibPath a.pos) (P.drop (x.length + 1))
+      rw [hpos, sibPath_snoc]
+      have hxlen := hxP.length_le
+      simp at hxlen
+      apply freshBelow_of_clean ps t hclean
+      · exact List.prefix_of_prefix_length_le htP hxP (by simp; omega)
+      · rw [List.length_drop]
+        simp only [List.length_append, List.length_singleton, Bool.not_false]
+        omega
+  · intro a1 l r n
+    trivial
 
 end Nomt.Walker.G
